@@ -95,7 +95,12 @@ def srvHandle (toks : List String) : String :=
                 else if l4 = "other" then some L4.other else none)
       let sp ← num? sp 0 65535
       let dp ← num? dp 0 65535
-      let ulenOk ← (if ulen = "ok" then some true else if ulen = "long" then some false else none)
+      -- `tail<hex>`: the length field is that of `pld`, more bytes follow behind the window it delimits
+      -- (the listener decodes `pld`; `mac=` is the MAC over the UDP header and `pld`)
+      let ulenOk ← (if ulen = "ok" then some true else if ulen = "long" then some false
+                    else if ulen.startsWith "tail" ∧ ulen.length > 4 then
+                      (lowerHex? (ulen.drop 4).toString).bind fun t => if t.length > 0 ∧ l4 = L4.udp then some true else none
+                    else none)
       let pld ← lowerHex? pld
       let mac ← (if mac = "err" then some none else (lowerHex? mac).map some)
       let ntpOk ← (if ntp = "ok" then some true else if ntp = "bad" then some false else none)
